@@ -33,7 +33,7 @@ ENUMERATOR (deterministic).  Base trees: every statement of corpus.STATEMENTS pa
 nodes, plus REPETITIVE (trees with repeated subtrees: similarity ties).  Edit operations at every applicable position
 (the edited tree must be one the parser itself produces: parse(edited.sql()) == edited, and must be well formed):
   rename (identifier text + "_x"), rename-far (identifier -> "zz9"), recase (a str arg of a non-raw node swap-cased:
-  the trees stay EQUAL by Expr.__eq__), literal, proj-insert/-delete/-swap, conj-insert/-delete/-swap,
+  the trees stay EQUAL by Expr.__eq__; kept only if the parser yields exactly that spelling for the tree's SQL), literal, proj-insert/-delete/-swap, conj-insert/-delete/-swap,
   join-insert/-delete/-swap, wrap (node -> G(node)), unwrap (Paren/Func/Unary -> its operand), copy (no edit).
 All edit sequences of length <= 1 on every base tree; of length 2 on the base trees with <= DOUBLE_NODES nodes
 (quick) / all (thorough), length 3 in thorough on trees <= 12 nodes; pairs (t, e(t)) and (e(t), t); matchings modes:
@@ -43,9 +43,10 @@ shared-object scenarios per base tree (same object on both sides; target embeddi
 a source holding one node object twice), each with and without matchings.
 
 Keys: c20:<clause>:<edit kind | kind1+kind2 | independent | shared-*>:<node class>
-  node class: the unaccounted / doubled / mismatched node's class; for the delta clauses the class of the first node
-  (pre-order) at which the two trees differ (delta-empty-but-unequal) or of the first delta entry's node
-  (delta-nonempty-but-equal); for input-mutated the class of the first changed node.
+  node class: the unaccounted / doubled / mismatched node's class; for the two delta clauses the class of the first node
+  (pre-order, lock-step) at which the two trees differ in class, raw scalar args or child layout (for equal trees:
+  the node whose string arg differs in case only; the root class if there is no raw difference at all); for
+  input-mutated the class of the first changed node.
   A two-edit pair is reported under the single kind e1 when (t, e1(t)) alone already violates the same clause.
 """
 import collections
@@ -62,7 +63,10 @@ from bounded import treecheck  # noqa: E402
 
 import sqlglot  # noqa: E402
 from sqlglot import exp, parse_one  # noqa: E402
-from sqlglot import diff as D  # noqa: E402
+import importlib  # noqa: E402
+
+D = importlib.import_module("sqlglot.diff")  # (the attribute sqlglot.diff is the function, not the module)
+_diff = D.diff
 
 logging.getLogger("sqlglot").setLevel(logging.CRITICAL)
 
@@ -72,7 +76,7 @@ class HarnessError(Exception):
 
 
 MAX_NODES = 40
-DOUBLE_NODES = {"quick": 14, "thorough": 40}
+DOUBLE_NODES = {"quick": 30, "thorough": 40}
 TRIPLE_NODES = {"quick": 0, "thorough": 12}
 
 REPETITIVE = [
@@ -282,6 +286,32 @@ def _valid(tree):
     return True
 
 
+def raw(node):
+    """case-SENSITIVE structural dump (class, scalar args as they are, children); None / False / [] args are absent"""
+    items = []
+    for k in sorted(node.args):
+        v = node.args[k]
+        if v is None or v is False or (isinstance(v, list) and not v):
+            continue
+        if isinstance(v, exp.Expr):
+            items.append((k, raw(v)))
+        elif isinstance(v, list):
+            items.append((k, tuple(raw(x) if isinstance(x, exp.Expr) else repr(x) for x in v)))
+        else:
+            items.append((k, repr(v)))
+    return (type(node).__name__, tuple(items))
+
+
+def _valid_spelling(tree):
+    """the parser yields exactly this tree, letter case of every string included, for the tree's own SQL (a recased
+    string arg must be a spelling that parsing can produce: e.g. a function name or a unit, not the LEFT of a join)"""
+    try:
+        back = parse_one(tree.sql(normalize_functions=False))
+    except Exception:
+        return False
+    return raw(back) == raw(tree)
+
+
 def build(sql, k, edits):
     """(source tree, target tree = edits applied to a copy, identity correspondence [(source node, target node)] over
     nodes that survive in the target with the same type, non-identifier) or None if some edit is inapplicable/invalid"""
@@ -294,7 +324,7 @@ def build(sql, k, edits):
         if tuple(e) not in set(edits_of(tgt)):
             return None
         tgt = apply_edit(tgt, e)
-        if not _valid(tgt):
+        if not _valid(tgt) or (e[0] == "recase" and not _valid_spelling(tgt)):
             return None
     alive = {id(n) for n in tgt.walk()}
     pairs = [(a, b) for a, b in corr if id(b) in alive and type(a) is type(b) and not isinstance(a, exp.Identifier)]
@@ -389,7 +419,7 @@ def check_pair(src, tgt, matchings, shared=False):
     for delta_only in (False, True):
         info["calls"] += 1
         try:
-            results[delta_only] = D.diff(src, tgt, matchings=list(matchings) if matchings is not None else None, delta_only=delta_only)
+            results[delta_only] = _diff(src, tgt, matchings=list(matchings) if matchings is not None else None, delta_only=delta_only)
         except Exception as e:  # an exception raised by sqlglot is data
             V(f"exception:{type(e).__name__}", type(src).__name__, f"diff(delta_only={delta_only}) raised {type(e).__name__}: {str(e)[:80]}")
     for name, tree, before in (("source", src, fs), ("target", tgt, ft)):
@@ -427,7 +457,7 @@ def check_pair(src, tgt, matchings, shared=False):
         if delta and equal:
             e0 = delta[0]
             n0 = e0.expression if isinstance(e0, (D.Insert, D.Remove)) else e0.source
-            V("delta-nonempty-but-equal", type(n0).__name__, f"source == target but the delta has {len(delta)} edit(s), first {type(e0).__name__}({type(n0).__name__})")
+            V("delta-nonempty-but-equal", _first_difference_class(src, tgt), f"source == target but the delta has {len(delta)} edit(s), first {type(e0).__name__}({type(n0).__name__})")
         info["nontrivial"] = bool(delta) and len(delta) < len(full)
         if True in results:
             a = collections.Counter(_canon_edit(e) for e in delta)
@@ -524,11 +554,11 @@ def _attribute(item, clause):
 
 def work(item):
     """item: ("edit", sql, k, edits, direction, mode) | ("shared", sql, k, scenario, mode) | ("indep", i, j, mode)
-            | ("expand", sql, k, depth): enumerate the edit sequences of one base tree here (in the worker)"""
+            | ("seqs", sql, k, [edits, ...]): a chunk of the edit sequences of one base tree"""
     out = {"evals": 0, "calls": 0, "nontrivial": 0, "inapplicable": 0, "moves": 0, "moves_without_pair": 0, "viol": []}
-    if item[0] == "expand":
-        _, sql, k, depth = item
-        for edits in sequences(sql, k, depth):
+    if item[0] == "seqs":
+        _, sql, k, seqs = item
+        for edits in seqs:
             b = build(sql, k, edits)
             if b is None:
                 raise HarnessError(f"sequence {edits!r} enumerated for {sql!r} cannot be rebuilt")
@@ -581,7 +611,7 @@ def _input_of(item):
     if item[0] == "edit":
         _, sql, k, edits, direction, mode = item
         b = build(sql, k, edits)
-        a_sql, b_sql = b[0].sql(), b[1].sql()
+        a_sql, b_sql = b[0].sql(normalize_functions=False), b[1].sql(normalize_functions=False)
         if direction == "rev":
             a_sql, b_sql = b_sql, a_sql
         return {"family": "edit", "sql": sql, "stmt": k, "edits": [list(e) for e in edits], "direction": direction, "matchings": mode,
@@ -604,7 +634,7 @@ def sequences(sql, k, depth):
             for e in edits_of(tree):
                 c = tree.copy()
                 c = apply_edit(c, e)
-                if not _valid(c):
+                if not _valid(c) or (e[0] == "recase" and not _valid_spelling(c)):
                     continue
                 r = repr(c)
                 if r in seen:
@@ -616,12 +646,25 @@ def sequences(sql, k, depth):
     return out
 
 
+CHUNK = 60
+
+
+def _enumerate(job):
+    sql, k, depth = job
+    return sequences(sql, k, depth)
+
+
 def plan_items(tier):
-    items = []
-    for sql, k in base_trees():
+    bt = base_trees()
+    jobs = []
+    for sql, k in bt:
         n = nnodes(get_tree(sql, k))
-        depth = 3 if n <= TRIPLE_NODES[tier] else 2 if n <= DOUBLE_NODES[tier] else 1
-        items.append(("expand", sql, k, depth))
+        jobs.append((sql, k, 3 if n <= TRIPLE_NODES[tier] else 2 if n <= DOUBLE_NODES[tier] else 1))
+    seqlists = harness.pool_map(_enumerate, jobs, chunksize=1)  # phase 1: enumerate (and validate) the edit sequences
+    items = []
+    for (sql, k, depth), seqs in zip(jobs, seqlists):
+        for c in range(0, len(seqs), CHUNK):
+            items.append(("seqs", sql, k, tuple(seqs[c:c + CHUNK])))
         for mode in ("none", "all"):
             items.append(("edit", sql, k, (("copy", 0),), "fwd", mode))
         for scen in ("shared-same-object", "shared-subtree", "shared-twice-in-source"):
@@ -642,8 +685,7 @@ def run(tier, seed):
 
         random.Random(seed).shuffle(order)
     else:
-        # biggest expansions first
-        order.sort(key=lambda i: (0, -items[i][3], -len(items[i][1]), i) if items[i][0] == "expand" else (1, 0, 0, i))
+        order.sort(key=lambda i: (0, -len(items[i][1]), i) if items[i][0] == "seqs" else (1, 0, i))  # big trees first
     res = harness.pool_map(work, [items[i] for i in order], chunksize=1)
     tot = collections.Counter()
     by, counts = {}, {}
@@ -654,10 +696,20 @@ def run(tier, seed):
             counts[v["key"]] = counts.get(v["key"], 0) + 1
             lst = by.setdefault(v["key"], [])
             lst.append(v)
-            lst.sort(key=lambda x: (len(x["input"].get("edits", [])), len(x["input"].get("source_sql", x["input"].get("sql", ""))), json.dumps(x["input"])))
+            lst.sort(key=lambda x: (len(x["input"].get("edits", [])), x["input"].get("matchings") != "none", x["input"].get("direction", "fwd") != "fwd",
+                                    len(x["input"].get("source_sql", x["input"].get("sql", ""))), json.dumps(x["input"])))
             del lst[3:]
     violations = [dict(v, count=counts[k]) for k in sorted(by) for v in by[k]]
     bt = base_trees()
+    # outside the property (a matchings pair of Identifier nodes is not a pair of indexed nodes): observed only
+    a = parse_one("SELECT a FROM t")
+    b = a.copy()
+    idp = [(x, y) for x, y in zip(a.walk(), b.walk()) if isinstance(x, exp.Identifier)][:1]
+    try:
+        _diff(a, b, matchings=idp)
+        ident_obs = "returned"
+    except Exception as e:
+        ident_obs = f"raised {type(e).__name__}"
     return {
         "evaluations": tot["evals"],
         "distinct_nontrivial": tot["nontrivial"],
@@ -669,8 +721,10 @@ def run(tier, seed):
                  f"{len(INDEPENDENT)}^2 independent ordered pairs x matchings none/root",
         "exhaustive": True,
         "inapplicable_or_invalid": tot["inapplicable"],
-        "observations": {"move_entries": tot["moves"], "move_entries_without_keep_or_update_pair": tot["moves_without_pair"]},
-        "samples": [list(map(str, items[i])) for i in (0, len(items) // 2, len(items) - 1)],
+        "observations": {"move_entries": tot["moves"], "move_entries_without_keep_or_update_pair": tot["moves_without_pair"],
+                         "diff_with_an_identifier_pair_in_matchings": ident_obs},
+        "edit_sequences": sum(len(it[3]) for it in items if it[0] == "seqs"),
+        "samples": [[str(x)[:200] for x in items[i]] for i in (0, len(items) // 2, len(items) - 1)],
         "violations": violations,
         "violation_counts": dict(sorted(counts.items())),
         "contract_evaluations": {"sqlglot.diff.diff": tot["calls"]},
